@@ -76,7 +76,7 @@ def generate(seed, tier, k):
     if case == "patch":
         H = [[gen.rfloat(r, -0.25, 0.25) for _ in range(dim)] for _ in range(dim)]
         vals = gen.ramp_values(r, n, 1.0, shape if shape in ("mono", "nonuniform", "repeat") else "mono")
-        doc["bc"] = {"case": "patch"}
+        doc["bc"] = {"case": "patch", "init": "scalar" if seed % 2 else "array"}
         doc["steps"] = [{"ramp": [{"target": "bc:patch", "values": vals, "H": H}]}]
     elif case == "uniaxial":
         e1 = r.choice([-0.25, -0.15, 0.1, 0.2, 0.3, 0.45])
